@@ -6,9 +6,20 @@ import (
 )
 
 type decision struct {
-	alts    []string
+	alts    []string // nil for a decision imported with a work-item prefix until it has been re-executed
 	choice  int
 	payload uint64 // e.g. the concretised value this decision is about
+	nalts   int
+	limit   int  // alternatives [choice+1, limit) are still to be tried by this explorer
+	unchecked bool // imported decision whose feasibility has not been established yet
+}
+
+// PrefixDecision is the serialisable form of a decision (work items handed between processes).
+type PrefixDecision struct {
+	C int    `json:"c"`
+	P uint64 `json:"p,omitempty"`
+	N int    `json:"n"`
+	U bool   `json:"u,omitempty"`
 }
 
 type pathInfeasible struct{}
@@ -22,6 +33,8 @@ type Explorer struct {
 	ndVars  []ndVar // nondet values created on the current path
 	nextPayload uint64
 	ShardI, ShardW, ShardDepth int
+	locked  int // decisions [0,locked) belong to the work item's prefix and are never backtracked
+	inconclusive map[string]int
 	Skipped int
 	Paths   int
 	Forks   int
@@ -84,6 +97,27 @@ func (x *Explorer) tryAlt(alt string) bool {
 
 // decide picks one of alts (SMT Bool expressions), consistent with the path condition.
 func (x *Explorer) decide(alts []string) int {
+	if x.pos < len(x.trail) && x.trail[x.pos].alts == nil {
+		// imported prefix decision: rebuild the solver stack while following it
+		d := &x.trail[x.pos]
+		if d.nalts != len(alts) || d.choice >= len(alts) {
+			panic(fmt.Sprintf("work-item prefix does not match re-execution at decision %d: %d alts vs %d", x.pos, d.nalts, len(alts)))
+		}
+		d.alts = alts
+		if d.unchecked {
+			d.unchecked = false
+			if !x.tryAlt(alts[d.choice]) {
+				panic(pathInfeasible{})
+			}
+		} else {
+			x.S.push()
+			if a := alts[d.choice]; a != "true" {
+				x.S.assert(a)
+			}
+		}
+		x.pos++
+		return d.choice
+	}
 	if x.pos < len(x.trail) {
 		d := x.trail[x.pos]
 		if len(d.alts) != len(alts) || d.alts[d.choice] != alts[d.choice] {
@@ -94,7 +128,7 @@ func (x *Explorer) decide(alts []string) int {
 	}
 	for k, alt := range alts {
 		if x.tryAlt(alt) {
-			x.trail = append(x.trail, decision{alts: alts, choice: k, payload: x.nextPayload})
+			x.trail = append(x.trail, decision{alts: alts, choice: k, payload: x.nextPayload, nalts: len(alts), limit: len(alts)})
 			x.pos++
 			if len(alts) > 1 {
 				x.Forks++
@@ -111,11 +145,11 @@ func (x *Explorer) decide(alts []string) int {
 
 // next backtracks to the next unexplored alternative; false when exhausted.
 func (x *Explorer) next() bool {
-	for len(x.trail) > 0 {
+	for len(x.trail) > x.locked {
 		n := len(x.trail)
 		d := &x.trail[n-1]
 		x.S.popTo(n - 1)
-		for k := d.choice + 1; k < len(d.alts); k++ {
+		for k := d.choice + 1; k < d.limit; k++ {
 			if x.tryAlt(d.alts[k]) {
 				d.choice = k
 				if !x.mine() {
@@ -128,7 +162,40 @@ func (x *Explorer) next() bool {
 		}
 		x.trail = x.trail[:n-1]
 	}
+	x.S.popTo(0)
 	return false
+}
+
+// SetPrefix starts a new work item: the exploration is confined to the subtree below prefix.
+func (x *Explorer) SetPrefix(prefix []PrefixDecision) {
+	x.S.popTo(0)
+	x.trail = x.trail[:0]
+	for _, d := range prefix {
+		x.trail = append(x.trail, decision{choice: d.C, payload: d.P, nalts: d.N, limit: d.C + 1, unchecked: d.U})
+	}
+	x.locked = len(prefix)
+}
+
+// Shed gives away every not yet tried alternative of the current trail (above the locked prefix) as
+// work-item prefixes; afterwards nothing remains to this explorer but the path it has just finished.
+func (x *Explorer) Shed() [][]PrefixDecision {
+	var out [][]PrefixDecision
+	for lvl := x.locked; lvl < len(x.trail); lvl++ {
+		d := &x.trail[lvl]
+		for k := d.choice + 1; k < d.limit; k++ {
+			if d.alts[k] == "false" {
+				continue
+			}
+			p := make([]PrefixDecision, 0, lvl+1)
+			for _, e := range x.trail[:lvl] {
+				p = append(p, PrefixDecision{C: e.choice, P: e.payload, N: e.nalts})
+			}
+			p = append(p, PrefixDecision{C: k, P: d.payload, N: d.nalts, U: true})
+			out = append(out, p)
+		}
+		d.limit = d.choice + 1 // this level is exhausted for this explorer
+	}
+	return out
 }
 
 // checkSat asks whether extra is satisfiable together with the path condition.
